@@ -149,6 +149,12 @@ func ZZ_C14_statusFn() {
 		wantDesired += upToDate.Status.Desired
 		wantUpToDate = upToDate.Status.Current
 	}
+	// ignoredUnresponsiveNodes follows desired: the active replica set's, plus the canary's during a canary
+	wantIgnored := active.Status.IgnoredUnresponsiveNodes
+	if canaryActive {
+		wantIgnored += upToDate.Status.IgnoredUnresponsiveNodes
+	}
+	nondet.Assert("C14.status.ignored-nodes", w.IgnoredUnresponsiveNodes == wantIgnored)
 	nondet.Assert("C14.status.desired", w.Desired == wantDesired)
 	nondet.Assert("C14.status.uptodate", w.UpToDate == wantUpToDate)
 	plain := datadoghqv1alpha1.ExtendedDaemonSetStatusStateRunning
